@@ -51,7 +51,7 @@ func init() {
 			"R01 every index/slice of a caller-controlled key is dominated by the length fact it needs (so probing an absent key cannot fault on a key index); " +
 			"R02 every success outcome of Search/Delete and the value overwrite of Insert is dominated by the true edge of the full-key comparison with the stored form restoreKey returns; " +
 			"R03 on every CFG path of every Insert the set of link/relink/overwrite/size events is one of the accepted ones (nothing dropped, nothing double-counted); " +
-			"R05 the keys of each kind are prefix-free for a structural reason, which is what makes the key-exhausted edges of Insert infeasible.",
+			"R05 the keys of each kind are prefix-free for a structural reason, which is what makes the key-exhausted edges of Insert infeasible. R21/R22/R24/R37/R41/R43 grow/shrink and add/delete of a child keep every registered child: the replacement node receives header, keys and children, capacity guards equal the array lengths, an addChild stores exactly one child and bumps the fan-out once, a size class whose deleteChild leaves holes never takes slot childrenLen, every deleteChild path vacates the slot; R36 the hand-written collation copy agrees with the compound instantiation of the template on node-layer calls, stores and position comparisons.",
 		NotDecided: "That descent, split and merge compute the right byte positions (compressed-path arithmetic, the 10-byte inline limit), and all value-level behaviour of the SWAR/SIMD node search: these quantify over runtime values and are out of reach of a static rule."})
 	registerProp(&propSpec{ID: "C06", Level: "other",
 		Rules: []string{"R03", "R04", "R05", "R14"},
@@ -65,31 +65,31 @@ func init() {
 		Technique:  "static translation validation: re-render the code-generation template from the generator's AST and diff against the checked-in file", DesignRef: "§4 C19 R34"})
 	registerProp(&propSpec{ID: "C02", Level: "other", DesignRef: "§4 C02",
 		Rules:      []string{"R09", "R08", "R10", "R12", "R06", "R11", "R35", "R39", "R37", "R27", "R41"},
-		Explain:    "Structural clauses of complete/duplicate-free/sorted iteration: R09 every traversal arm (all, backward, filter, rangeScan, minimum, maximum, the inlined lookups of Search) reads the children of each node kind through the same slot domain, occupancy test and child expression as the canonical byte→child lookup (findChild), forward traversals push in descending and backward in ascending slot order (mirror); R08 keys are restored by undoing exactly the normalisation applied at insertion; R10 constant-range indexes fit their arrays; R12 worklists are seeded only with a non-nil root; R06 popped references are cast under their tag; R11 no loop-carried key position.",
+		Explain:    "Structural clauses of complete/duplicate-free/sorted iteration: R09 every traversal arm (all, backward, filter, rangeScan, minimum, maximum, the inlined lookups of Search) reads the children of each node kind through the same slot domain, occupancy test and child expression as the canonical byte→child lookup (findChild), forward traversals push in descending and backward in ascending slot order (mirror); R08 keys are restored by undoing exactly the normalisation applied at insertion; R10 constant-range indexes fit their arrays; R12 worklists are seeded only with a non-nil root; R06 popped references are cast under their tag; R11 no loop-carried key position. R35 the public sequence methods call the like-named helper and Minimum/Maximum restore the key of minimum/maximum(root); R39 a traversal ends only on an empty stack, a false yield, an empty tree or an upper bound; R27 sequence closures mutate nothing captured; R37/R41 the node layer keeps occupied slots findable.",
 		NotDecided: "That children inside a 4/16-slot node are kept in ascending byte order (insertPosNode4/16: SWAR/SIMD arithmetic) and that the key encodings are monotone (C07's value-level part)."})
 	registerProp(&propSpec{ID: "C03", Level: "other", DesignRef: "§4 C03",
 		Rules:      []string{"R12", "R11", "R13", "R39", "R09", "R01", "R08", "R06", "R27"},
-		Explain:    "Range: R12 the scan and the open-end bound are guarded against an empty tree (nil root, nil maximum); R11 the key depth is carried per stack entry, not per scan; R13 every yield is dominated by both leaf-level bound comparisons with the right argument roles, a key below the lower bound is skipped rather than ending the scan, callers normalise reversed bounds by a swap, the equal-bounds sequence yields only under a successful Search; R09 the scan enumerates children like the other traversals; R01 slicing of the bounds' common prefix is guarded; R08 the bounds get the same key normalisation as stored keys.",
+		Explain:    "Range: R12 the scan and the open-end bound are guarded against an empty tree (nil root, nil maximum); R11 the key depth is carried per stack entry, not per scan; R13 every yield is dominated by both leaf-level bound comparisons with the right argument roles, a key below the lower bound is skipped rather than ending the scan, callers normalise reversed bounds by a swap, the equal-bounds sequence yields only under a successful Search; R09 the scan enumerates children like the other traversals; R01 slicing of the bounds' common prefix is guarded; R08 the bounds get the same key normalisation as stored keys. R39 the scan ends only on an empty stack, a false yield or a key above the upper bound; R27 no captured state is mutated.",
 		NotDecided: "That the common-prefix pruning (skip a subtree whose compressed path mismatches the bounds' common prefix) never removes a subtree intersecting the range – a value-level argument about byte positions."})
 	registerProp(&propSpec{ID: "C04", Level: "other", DesignRef: "§4 C04",
 		Rules:      []string{"R13", "R40", "R39", "R11", "R10", "R06", "R09", "R01", "R12", "R27"},
-		Explain:    "Prefix: R13 every yield of the filtering scan is dominated by the predicate, which calls bytes.HasPrefix(stored key, requested prefix) in that argument order – so nothing that does not start with p is yielded; the subtree selector is a single-path descent (no worklist: R11), indexes the prefix only under a length guard (R01), never reads a leaf as an inner node (R06) and is only entered with a non-nil root (R12); R09/R10 the scan enumerates every child of every node kind with in-range indexes.",
+		Explain:    "Prefix: R13 every yield of the filtering scan is dominated by the predicate, which calls bytes.HasPrefix(stored key, requested prefix) in that argument order – so nothing that does not start with p is yielded; the subtree selector is a single-path descent (no worklist: R11), indexes the prefix only under a length guard (R01), never reads a leaf as an inner node (R06) and is only entered with a non-nil root (R12); R09/R10 the scan enumerates every child of every node kind with in-range indexes. R40 Prefix returns the filtering scan (or All() for the empty prefix) and nothing else; R39 the scan ends only on an empty stack or a false yield.",
 		NotDecided: "That the selector's byte-position arithmetic (prefixMismatch against compressed paths longer than the inline limit) returns a subtree containing every matching key."})
 	registerProp(&propSpec{ID: "C05", Level: "other", DesignRef: "§4 C05",
 		Rules:      []string{"R09", "R12", "R35", "R38", "R27", "R06", "R39"},
-		Explain:    "R09 minimum/maximum pick the first/last occupied slot of the same slot domain, with the same occupancy test and child expression, that the traversals enumerate (8 arms); R12 Minimum/Maximum report 'none' exactly on a nil result; R27/R28 TopK/BottomK count per pass and stop after yield returned false, ranging over Backward/All respectively (call-target check); R06 casts under tag facts.",
+		Explain:    "R09 minimum/maximum pick the first/last occupied slot of the same slot domain, with the same occupancy test and child expression, that the traversals enumerate (8 arms); R12 Minimum/Maximum report 'none' exactly on a nil result; R27/R28 TopK/BottomK count per pass and stop after yield returned false, ranging over Backward/All respectively (call-target check); R06 casts under tag facts. R35 Minimum/Maximum return restoreKey(minimum/maximum(root)) on every found path; R38 every yield of TopK/BottomK is dominated by budget left on the per-pass counter; R39 scan exits.",
 		NotDecided: "Nothing beyond C02's value-level remainder (sortedness inside 4/16-slot nodes)."})
 	registerProp(&propSpec{ID: "C08", Level: "other", DesignRef: "§4 C08",
 		Rules:      []string{"R16", "R17", "R08", "R01", "R02", "R03", "R04", "R05", "R06", "R09", "R12", "R26", "R39", "R40", "R36", "R42"},
-		Explain:    "collation.go is analysed as the sixth copy of the tree algorithm by every kind-generic rule (R01 guarded key indexes, R02 equality on the ORIGINAL string – not the sort key – dominates every success, R03/R04 link/size automaton, R06 tag casts, R09 inlined lookups, R12 nil flows), plus R16: the leaf pairs (key,keyLen) with the original bytes and (colKey,colKeyLen) with the sort key, descent uses only the sort key, restoreKey returns the original, WithCollator stores into the field that sort-key generation reads; R08 one normalisation per role at all entry points.",
+		Explain:    "collation.go is analysed as the sixth copy of the tree algorithm by every kind-generic rule (R01 guarded key indexes, R02 equality on the ORIGINAL string – not the sort key – dominates every success, R03/R04 link/size automaton, R06 tag casts, R09 inlined lookups, R12 nil flows), plus R16: the leaf pairs (key,keyLen) with the original bytes and (colKey,colKeyLen) with the sort key, descent uses only the sort key, restoreKey returns the original, WithCollator stores into the field that sort-key generation reads; R08 one normalisation per role at all entry points. R36 sibling agreement with the compound instantiation of the template; R42 the collator/buffer/codec a tree holds are per-tree objects (fresh or caller-supplied), never package-level singletons; R26 the tree keeps no alias of a caller slice; R39/R40 scan exits and Prefix result.",
 		NotDecided: "That x/text sort keys order like Collator.Compare and are prefix-free (library contract, recorded as assumption)."})
 	registerProp(&propSpec{ID: "C09", Level: "other", DesignRef: "§4 C09",
 		Rules:      []string{"R18", "R08", "R01", "R02", "R03", "R04", "R05", "R06", "R12", "R13", "R36"},
-		Explain:    "The compound instantiation is analysed by all kind-generic rules; R18/R08: the constructor stores the caller's codec in the field every method reads, every key→bytes conversion is bck.Transform with the SAME result index at Insert, Search, Delete and both Range bounds, stored bytes are decoded with bck.Restore.",
+		Explain:    "The compound instantiation is analysed by all kind-generic rules; R18/R08: the constructor stores the caller's codec in the field every method reads, every key→bytes conversion is bck.Transform with the SAME result index at Insert, Search, Delete and both Range bounds, stored bytes are decoded with bck.Restore. R36 sibling agreement with the collation copy.",
 		NotDecided: "Everything that depends on what the user's codec computes (injectivity, order, prefix-freedom are the property's premise and are recorded as assumptions)."})
 	registerProp(&propSpec{ID: "C14", Level: "other", DesignRef: "§4 C14",
 		Rules:      []string{"R27", "R28", "R38", "R29"},
-		Explain:    "R27 no sequence closure assigns, increments or takes the address of a variable declared outside it, so a second pass starts from the same captured values; R28 every yield call decides a branch whose false outcome reaches the function exit with no further yield call reachable (go/cfg reachability), and no yield is deferred. 12 closures, all yield sites.",
+		Explain:    "R27 no sequence closure assigns, increments or takes the address of a variable declared outside it, so a second pass starts from the same captured values; R28 every yield call decides a branch whose false outcome reaches the function exit with no further yield call reachable (go/cfg reachability), and no yield is deferred. 12 closures, all yield sites. R38 every yield of TopK/BottomK is dominated by budget left on a per-pass counter; R29 sequences write nothing that outlives a pass; a yield inside a nested closure is reported UNDECIDED.",
 		NotDecided: "Nothing value-level: with the tree unchanged, the yielded elements are those of C02–C05."})
 	registerProp(&propSpec{ID: "C07", Level: "other", DesignRef: "§4 C07",
 		Rules:      []string{"R15", "R32", "R05"},
@@ -97,15 +97,15 @@ func init() {
 		NotDecided: "The sign-magnitude→biased mask arithmetic itself and hence monotonicity/injectivity for every bit pattern: that needs enumeration or a solver, which static analysis excludes."})
 	registerProp(&propSpec{ID: "C10", Level: "other", DesignRef: "§4 C10",
 		Rules:      []string{"R19", "R09", "R10", "R22", "R20", "R37", "R41", "R43"},
-		Explain:    "R19 every use of a 4-lane SWAR search result as an index is under result < fill count (the search sees all four lanes, occupied or not), and deleteChild – the one unguarded user – is only called for a byte proven registered by findChild on the same reference; R09 the byte→child lookup of each size class and every inlined copy of it agree; R10 constant-range indexes fit [4]/[16]/[48]/[256]; R22 capacity guards equal the array lengths and shrink thresholds fit the smaller class; R20 each architecture sibling of the 16-lane routines (amd64 asm, arm64 asm, portable Go) makes its result depend on keys, fill count and probe byte, compares unsigned, and stores nothing but the result.",
+		Explain:    "R19 every use of a 4-lane SWAR search result as an index is under result < fill count (the search sees all four lanes, occupied or not), and deleteChild – the one unguarded user – is only called for a byte proven registered by findChild on the same reference; R09 the byte→child lookup of each size class and every inlined copy of it agree; R10 constant-range indexes fit [4]/[16]/[48]/[256]; R22 capacity guards equal the array lengths and shrink thresholds fit the smaller class; R20 each architecture sibling of the 16-lane routines (amd64 asm, arm64 asm, portable Go) makes its result depend on keys, fill count and probe byte, compares unsigned, and stores nothing but the result. R37 a class whose deleteChild leaves holes never takes slot childrenLen; R41 every deleteChild path vacates the slot; R43 every addChild path stores one child and bumps the fan-out once.",
 		NotDecided: "The SWAR/SIMD bit arithmetic (2^40 / 2^140 inputs): that insertPosNode4/16 return the sorted position and searchNode4 the first matching lane."})
 	registerProp(&propSpec{ID: "C11", Level: "other", DesignRef: "§4 C11",
 		Rules:      []string{"R06", "R07", "R21", "R22", "R23", "R03", "R04", "R24", "R37", "R41", "R43"},
-		Explain:    "R06 a reference is only ever read through the layout its tag names (120 casts under tag facts, 48 reference literals pairing pointer type and tag, pool assertions); R07 every kind switch has one arm per inner kind and a panicking default; R21 every grow/shrink copies every header field (prefixLen, childrenLen, prefix) to the replacement before releasing the old node; R22 capacity guards/thresholds are coherent with the array lengths; R23 node fields are written only by the node layer and the Insert split paths; R03/R04 the number of linked leaves moves in step with size on every path; R24 nodes are released only after the slot is relinked.",
+		Explain:    "R06 a reference is only ever read through the layout its tag names (120 casts under tag facts, 48 reference literals pairing pointer type and tag, pool assertions); R07 every kind switch has one arm per inner kind and a panicking default; R21 every grow/shrink copies every header field (prefixLen, childrenLen, prefix) to the replacement before releasing the old node; R22 capacity guards/thresholds are coherent with the array lengths; R23 node fields are written only by the node layer and the Insert split paths; R03/R04 the number of linked leaves moves in step with size on every path; R24 nodes are released only after the slot is relinked. R22 also: prefixLen is as wide as the leaves' key-length fields; R37/R41/R43 slot allocation, vacate-on-delete and fan-out bookkeeping of the node layer.",
 		NotDecided: "That prefix lengths/bytes equal the common extension of the keys below a node after split and merge (byte arithmetic), and history independence of the shape."})
 	registerProp(&propSpec{ID: "C12", Level: "other", DesignRef: "§4 C12",
 		Rules:      []string{"R24", "R25", "R30", "R06", "R14", "R42"},
-		Explain:    "Pool typestate for each of the 7 releases: the node is cleared in the statement before Put, clear() resets every field of the struct (header included), the node is not used after release, the slot referencing it was overwritten before, its type matches the pool index, and every Get is asserted to the layout of its index (R24, R06); the only per-tree state is {root, size, codec} written only by Insert/Delete, and the root-leaf delete stores the zero reference, so an emptied tree equals a new one (R25, R14); the only package-level state is the sync.Pool array used through Get/Put (R30) – hence trees share no mutable memory except cleared, unreferenced pool objects.",
+		Explain:    "Pool typestate for each of the 7 releases: the node is cleared in the statement before Put, clear() resets every field of the struct (header included), the node is not used after release, the slot referencing it was overwritten before, its type matches the pool index, and every Get is asserted to the layout of its index (R24, R06); the only per-tree state is {root, size, codec} written only by Insert/Delete, and the root-leaf delete stores the zero reference, so an emptied tree equals a new one (R25, R14); the only package-level state is the sync.Pool array used through Get/Put (R30) – hence trees share no mutable memory except cleared, unreferenced pool objects. R24 also: every replace site releases the old node by the same idiom; R42 nothing a constructor or option stores into a tree is a package-level object.",
 		NotDecided: "Nothing value-level beyond C01/C11; sync.Pool's own behaviour is trusted."})
 	registerProp(&propSpec{ID: "C18", Level: "other", DesignRef: "§4 C18",
 		Rules:      []string{"R32", "R33", "R06", "R16"},
@@ -113,7 +113,7 @@ func init() {
 		NotDecided: "Behaviour of the Go collector itself (trusted as documented for unsafe.Pointer patterns (1) and (6))."})
 	registerProp(&propSpec{ID: "C13", Level: "other", DesignRef: "§4 C13",
 		Rules:      []string{"R26"},
-		Explain:    "R26 must-dataflow of the fact 'this slice variable refers to memory the library allocated itself' (established by make/copy helpers, string→[]byte conversions, bytes.Clone, and callees whose every return is such a value – derived from their own bodies). Every write sink (append, copy, indexed store, passing to a callee that writes through that parameter) and every retention sink (unsafe.SliceData / &x[i] / storing the slice in a leaf literal or tree memory; sinks inside the leaf-creating closure are evaluated at each of its call sites) on a slice that may alias a key argument requires that fact; 64 functions reachable from Insert/Search/Delete/Prefix/Range of the byte-keyed kinds (byte-string and collation).",
+		Explain:    "R26 must-dataflow of the fact 'this slice variable refers to memory the library allocated itself' (established by make/copy helpers, string→[]byte conversions, bytes.Clone, and callees whose every return is such a value – derived from their own bodies). Every write sink (append, copy, indexed store, passing to a callee that writes through that parameter) and every retention sink (unsafe.SliceData / &x[i] / storing the slice in a leaf literal or tree memory; sinks inside the leaf-creating closure are evaluated at each of its call sites) on a slice that may alias a key argument requires that fact; 64 functions reachable from Insert/Search/Delete/Prefix/Range of the byte-keyed kinds (byte-string and collation). A closure that outlives the call (the returned sequence, the filter predicate) may capture only slices carrying that fact.",
 		NotDecided: "Compound codecs written by the user (out of the property's scope). One named exception, printed in evidence: CollationOrderKey.src keeps the last key slice as codec scratch that no function reachable from the Tree API reads."})
 	registerProp(&propSpec{ID: "C15", Level: "other", DesignRef: "§4 C15",
 		Rules:      []string{"R29", "R17", "R02", "R04", "R03", "R14", "R25", "R23"},
@@ -121,10 +121,10 @@ func init() {
 		NotDecided: "Named exception (printed in evidence): the collation codec scratch (CollationOrderKey.src, its collate.Buffer and the collator's iterators) is written by queries of collation trees; it is outside the node graph and unobservable through the Tree API."})
 	registerProp(&propSpec{ID: "C16", Level: "other", DesignRef: "§4 C16",
 		Rules:      []string{"R30", "R24", "R25", "R29", "R42"},
-		Explain:    "Static race freedom = no conflicting access pair exists: R30 the only package-level variables are the sync.Pool array (used only through Get/Put) and read-only tables; R24 pooled nodes are completely cleared and unreferenced by the releasing tree; R25 per-tree state is {root, size, codec}; R29 queries of byte-string, numeric and compound trees store nothing that outlives the call, so concurrent readers of one quiescent tree only read. Collation trees are correctly not covered (their queries write codec scratch) – exactly the property's carve-out.",
+		Explain:    "Static race freedom = no conflicting access pair exists: R30 the only package-level variables are the sync.Pool array (used only through Get/Put) and read-only tables; R24 pooled nodes are completely cleared and unreferenced by the releasing tree; R25 per-tree state is {root, size, codec}; R29 queries of byte-string, numeric and compound trees store nothing that outlives the call, so concurrent readers of one quiescent tree only read. Collation trees are correctly not covered (their queries write codec scratch) – exactly the property's carve-out. R42 no two trees share a package-level codec/collator object.",
 		NotDecided: "The Go memory model guarantees of sync.Pool (trusted); a user-supplied compound codec with shared mutable state (premise of the property)."})
 	registerProp(&propSpec{ID: "C17", Level: "other", DesignRef: "§4 C17",
 		Rules:      []string{"R17", "R29", "R04", "R24", "R03", "R30"},
-		Explain:    "Structural content of 'no per-operation leak': R29/R31 nothing a query allocates is stored into memory that outlives the call; R17 the sort key is copied out of the tree-lifetime collate.Buffer and the buffer is reset on every path, so it neither grows with the number of operations nor is aliased by stored leaves; R03 an overwrite of a present key stores only the value; R04 a successful Delete overwrites the slot that held the leaf (the leaf and its key bytes become unreachable); R24 emptied nodes go back to the pool cleared.",
+		Explain:    "Structural content of 'no per-operation leak': R29/R31 nothing a query allocates is stored into memory that outlives the call; R17 the sort key is copied out of the tree-lifetime collate.Buffer and the buffer is reset on every path, so it neither grows with the number of operations nor is aliased by stored leaves; R03 an overwrite of a present key stores only the value; R04 a successful Delete overwrites the slot that held the leaf (the leaf and its key bytes become unreachable); R24 emptied nodes go back to the pool cleared. R30 the pool is a sync.Pool (collectable), not a hand-written free list.",
 		NotDecided: "Actual heap numbers; stale duplicates left in unoccupied child slots by copy-shifting are bounded by node capacity (noted, not flagged)."})
 }
